@@ -93,6 +93,12 @@ static int choose(int me) {
         S.trace.push_back(pick);
         return pick;
     }
+    if (S.policy == 3) {           // single-park enumeration: the parked thread runs alone up to its point, the others run one after another
+        if (!S.parked && S.park_thr >= 0 && runnable(S.park_thr) && S.t[S.park_thr].points < S.park_point) pick = S.park_thr;
+        else pick = (me >= 0 && runnable(me)) ? me : cand[0];
+        S.trace.push_back(pick);
+        return pick;
+    }
     if (S.policy == 1) {           // PCT: highest priority runnable; priorities drop at the change points
         for (long cp : S.change_points) if (cp == S.total_points && me >= 0) S.t[me].prio = -(int)S.total_points;
         int best = cand[0];
@@ -114,6 +120,7 @@ static void switch_to(int me, int next) {
 
 void sched_point(int kind) {
     if (!G.multi || S.aborting) return;
+    SimScope harness_scope;
     int me = t_thr;
     S.t[me].points++; S.total_points++;
     if (kind == SP_CALL_ENTER) S.t[me].in_lib = true;
@@ -121,7 +128,7 @@ void sched_point(int kind) {
     int ov = 0; for (int i = 0; i < S.n; i++) if (S.t[i].in_lib) ov++;
     if (ov > S.max_overlap) S.max_overlap = ov;
     if (S.fork_mode && me == 1 && S.phase == 0 && S.t[1].points == S.fork_point) S.phase = 1;
-    if (S.policy == 2 && !S.parked && me == S.park_thr && S.t[me].points == S.park_point) {
+    if ((S.policy == 2 || S.policy == 3) && !S.parked && me == S.park_thr && S.t[me].points == S.park_point) {
         bool others = false; for (int i = 0; i < S.n; i++) if (i != me && S.t[i].state == TS_RUNNABLE) others = true;
         if (others) { S.parked = true; G.counters["long-park-used"]++; }
     }
@@ -221,6 +228,7 @@ int sched_once(pthread_once_t *o, void (*fn)()) {
 // ------------------------------------------------------------------ Batch
 struct ThreadArg { int idx; };
 static void finish_thread(int me) {
+    SimScope harness_scope;
     S.t[me].state = TS_DONE;
     bool all_done = true;
     for (int i = 0; i < S.n; i++) if (S.t[i].state != TS_DONE && S.t[i].state != TS_GONE && S.t[i].state != TS_UNUSED) all_done = false;
@@ -261,6 +269,9 @@ void run_batch(const Plan &plan, int opi, const Op &op, RunResult &r) {
     } else if (S.policy == 2) {
         S.park_thr = (int)S.rng.below((uint64_t)n);
         S.park_point = 1 + (int)S.rng.below(90);
+    } else if (S.policy == 3) {     // enumerated by the seed: thread = seed mod n, point = (seed div n) mod 120 + 1
+        S.park_thr = (int)(op.sched_seed % (uint64_t)n);
+        S.park_point = 1 + (int)((op.sched_seed / (uint64_t)n) % 120);
     }
     // process environment for the whole batch
     std::vector<char *> store; char **saved = environ;
@@ -294,7 +305,7 @@ void run_batch(const Plan &plan, int opi, const Op &op, RunResult &r) {
 
 // ------------------------------------------------------------------ fork
 static pid_t (*real_fork_fn)();
-extern "C" pid_t __libc_fork(void);
+
 static std::string g_child_report;
 
 int sim_fork() {
@@ -339,7 +350,7 @@ static void child_main(int wfd, const ExecOp &call, bool grandchild, int depth) 
         if (grandchild && depth == 0) {
             int pfd[2]; if (pipe(pfd) == 0) {
                 for (size_t k = G.atfork.size(); k-- > 0;) if (G.atfork[k].prepare) { t_in_sut = 1; G.atfork[k].prepare(); t_in_sut = 0; }
-                pid_t p = __libc_fork();
+                pid_t p = fork();
                 if (p == 0) { close(pfd[0]); child_main(pfd[1], call, false, 1); }
                 close(pfd[1]);
                 for (auto &h : G.atfork) if (h.parent) { t_in_sut = 1; h.parent(); t_in_sut = 0; }
@@ -369,9 +380,13 @@ static void *forker_body(void *) {
     sim_event("fork");
     G.counters["fork-owner-" + std::to_string(-1)];
     for (size_t k = G.atfork.size(); k-- > 0;) if (G.atfork[k].prepare) { t_in_sut = 1; G.atfork[k].prepare(); t_in_sut = 0; }
+    // a thread that has finished may still be running its (sanitizer) teardown, holding allocator locks the child
+    // would inherit: wait until it is really gone before forking
+    static bool joined_b; joined_b = false;
+    if (S.t[1].state == TS_DONE) { pthread_join(S.t[1].th, nullptr); joined_b = true; S.t[1].state = TS_GONE; }
     int pfd[2];
     if (pipe(pfd) != 0) { dprintf(2, "harness problem: pipe failed\n"); _exit(2); }
-    pid_t p = __libc_fork();
+    pid_t p = fork();
     if (p < 0) { dprintf(2, "harness problem: fork failed\n"); _exit(2); }
     if (p == 0) { close(pfd[0]); child_main(pfd[1], op.child_ex, op.grandchild, 0); }
     close(pfd[1]);
@@ -412,7 +427,7 @@ void run_forkexec(const Plan &plan, int opi, const Op &op, RunResult &r) {
     fwait(&S.main_futex);
     r.schedule = S.trace; r.sched_points = S.t[1].points; r.max_overlap = S.max_overlap; r.blocked_on_mutex = S.blocked_events;
     if (!S.aborting) {
-        pthread_join(S.t[0].th, nullptr); pthread_join(S.t[1].th, nullptr);
+        pthread_join(S.t[0].th, nullptr); if (S.t[1].state != TS_GONE) pthread_join(S.t[1].th, nullptr);
         environ = saved; for (char *c : vec) free(c);
     }
     G.multi = false;
